@@ -2,9 +2,9 @@
 C02 — Every reported span is a valid line range of the stored listing (partial).
 
 Proved here, for the model of /repo as it is now:
- * the spans scheduled by hints (`get_program`): always ordered line numbers of the *centrifugated*
-   text (all texts); within the stored listing for hygienic decorated programs; the full sentence
-   is false on the current tree (finding 7) — `C02_hint_spans_counterexample`;
+ * the spans scheduled by hints (`get_program`): valid line ranges of the stored source for EVERY
+   text without the separators 0x1c–0x1f (`C02_hint_spans`); that hypothesis is needed
+   (`C02_hint_spans_needs_noFS`, finding F07d);
  * the span of the `ast_construction:*` error label is (1, number of lines);
  * `get_bindings`: start / end are the line numbers of the first / last captured `POS` (or of the
    paired `POS`), so a binding is a valid range iff those captured lines are ordered and in range.
@@ -13,6 +13,7 @@ CPython's line numbers, `meta/program` (see DESIGN §5/C02).
 -/
 import Paroxy.Proofs.HintsSpans
 import Paroxy.Proofs.HintsPrepare
+import Paroxy.Proofs.HintsAllTexts
 import Paroxy.Model.ParseGlue
 namespace Paroxy.Props.C02
 open Paroxy Paroxy.Hints Paroxy.Glue
@@ -43,67 +44,67 @@ theorem C02_hint_spans_centrifugated (src c : Str) (p : Program)
     cases h
     exact collectHints_spans c a d hcol
 
-/-- **C02 (hint spans), partial.** For a decorated program with hygienic lines, markers spelled
-freely, blank lines allowed at both ends of the text, such that — once those blank ends are
-trimmed — the first code line is neither blank nor indented and the last one is not blank:
-whenever `get_program` returns, the stored source is the program without its hints and every
-scheduled span is a valid line range of that stored listing. -/
-theorem C02_hint_spans_partial (d : List (Line × MarkerStyle))
-    (hlines : ((codeLines (d.map Prod.fst)).all okCode && (wholeLabels (d.map Prod.fst)).all cleanLabel &&
-      looseOk (d.map Prod.fst)) = true)
-    (hyg : hygienic (normalised d) = true) (p : Program)
-    (h : getProgram (decorateS d) = .ok p) :
-    p.source = joinNL (base (normalised d)) ∧
-      ∀ e ∈ p.addition.entries ++ p.deletion.entries, ValidSpan p.source e.2.1 e.2.2 := by
-  have hy := hyg_of _ hyg
-  have hprep := prepare_decorateS d (linesOk_of _ hlines) hy.ne
-  obtain ⟨hc, hsrc, hl1, hl2⟩ := decorated_source_and_lines (normalised d) hy
-  rw [← hprep] at hc
-  have hspans := C02_hint_spans_centrifugated _ _ p hc h
-  have hps : p.source = joinNL (base (normalised d)) := by
-    unfold getProgram getProgramFrom at h
-    simp only [hc] at h
-    split at h
-    · cases h
-    · cases h; exact hsrc
-  refine ⟨hps, fun e he => ?_⟩
-  have := hspans e he
-  simp only [ValidSpan] at this ⊢
-  rw [hps, hl2, ← hl1]
-  exact this
+/-- **C02 (hint spans), full.** For EVERY text without the separators 0x1c–0x1f (`noFS`): whenever
+`get_program` returns, every span it schedules is a valid line range of the stored source —
+`1 ≤ start ≤ end ≤ number of lines of the stored source`. (The stored source has exactly as many
+lines as the text the hints were numbered on: `remove_hints` swallows no line break and strips no
+end line; no hypothesis on emptiness is needed.) -/
+theorem C02_hint_spans (src : Str) (p : Program) (hfs : noFS src = true) (h : getProgram src = .ok p) :
+    ∀ e ∈ p.addition.entries ++ p.deletion.entries, ValidSpan p.source e.2.1 e.2.2 := by
+  have hfs' : ∀ x ∈ src, fsFree x := by
+    intro x hx
+    have := List.all_eq_true.mp hfs x hx
+    simp only [Bool.not_eq_true', Bool.and_eq_false_iff, decide_eq_false_iff_not] at this
+    simp only [fsFree]; omega
+  cases hc : centrifugate (prepare src) with
+  | error e => unfold getProgram getProgramFrom at h; simp [hc] at h
+  | ok c =>
+    have hspans := C02_hint_spans_centrifugated src c p hc h
+    have hps : p.source = removeHints c := by
+      unfold getProgram getProgramFrom at h
+      simp only [hc] at h
+      split at h
+      · cases h
+      · cases h; rfl
+    intro e he
+    have := hspans e he
+    simp only [ValidSpan] at this ⊢
+    rw [hps, lineCount_stored src c hfs' hc]
+    exact this
 
-/-- The sentence of the property for the spans scheduled by hints, for every text … -/
-def C02_hint_spans : Prop :=
+/-- The same sentence without the `noFS` hypothesis … -/
+def C02_hint_spans_any_character : Prop :=
   ∀ (src : Str) (p : Program), getProgram src = .ok p → p.source ≠ [] →
     ∀ e ∈ p.addition.entries ++ p.deletion.entries, ValidSpan p.source e.2.1 e.2.2
 
-def hintThenBlank : Str := "# paroxython: foo\n\nx = 1".toList
+def fsLine : Str := "\x1c # paroxython: foo\nx = 1 # paroxython: bar".toList
 
-/-- … is still false on the repaired tree: a hint alone on the first line followed by a blank line.
-The blank line is not at the beginning of the text, hence not trimmed; it is numbered (`foo` on 1–2)
-and then stripped from the stored source (one line). Same at the end: `x = 1\n\n# paroxython: foo`. -/
-theorem C02_hint_spans_counterexample : ¬ C02_hint_spans := by
+/-- … is false (on the model and, checked by `./check C02`, on the implementation): a first line
+made of the separator 0x1c and a hint comment is not a hint alone on its line for the regex engine
+(`\s` does not match 0x1c) but is blank for `str.strip()` once the comment is removed; `bar` is
+scheduled on line 2 of a one-line stored listing. -/
+theorem C02_hint_spans_needs_noFS : ¬ C02_hint_spans_any_character := by
   intro h
-  have hp : getProgram hintThenBlank = .ok ⟨"x = 1".toList, [("foo".toList, [(1, 2)])], []⟩ := by rfl
-  have := h hintThenBlank _ hp (by decide) ("foo".toList, 1, 2) (by decide)
+  have hp : getProgram fsLine =
+      .ok ⟨"x = 1".toList, [("foo".toList, [(1, 1)]), ("bar".toList, [(2, 2)])], []⟩ := by rfl
+  have := h fsLine _ hp (by decide) ("bar".toList, 2, 2) (by decide)
   revert this
   simp only [ValidSpan]
   decide
 
+/-- Non-vacuity of `C02_hint_spans`, on the inputs of the repaired findings 7, 7b and 7c. -/
+example : noFS "# paroxython: foo\n\nx = 1".toList = true := by decide
+example : getProgram "# paroxython: foo\n\nx = 1".toList =
+    .ok ⟨"x = 1".toList, [("foo".toList, [(1, 1)])], []⟩ := by rfl
 example : getProgram "x = 1\n\n# paroxython: foo".toList =
-    .ok ⟨"x = 1".toList, [("foo".toList, [(1, 2)])], []⟩ := by rfl
+    .ok ⟨"x = 1".toList, [("foo".toList, [(1, 1)])], []⟩ := by rfl
 
-/-- The inputs of the repaired findings 7 and 7b now satisfy the property. -/
 example : getProgram "\n\nx = 1 # paroxython: foo\n".toList =
     .ok ⟨"x = 1".toList, [("foo".toList, [(1, 1)])], []⟩ := by rfl
 example : getProgram "x = 1\n# paroxython: foo\ny = 2\n".toList =
     .ok ⟨"x = 1\ny = 2".toList, [("foo".toList, [(1, 2)])], []⟩ := by rfl
 example : getProgram "x = 1\n# paroxython: \ny = 2 # paroxython: foo".toList =
     .ok ⟨"x = 1\ny = 2".toList, [("foo".toList, [(2, 2)])], []⟩ := by rfl
-
-/-- Non-vacuity of `C02_hint_spans_partial`. -/
-example : hygienic (normalised [(.code { code := [] }, {}),
-    (.code { code := "x = 1".toList, hints := [⟨.one false, "foo".toList, {}⟩] }, { sp1 := 0 })]) = true := by decide
 
 /-! ## The error label -/
 
